@@ -70,11 +70,15 @@ TaskInit(stack, root) ==
    out |-> Val,            \* final outcome once done
    ingroup |-> FALSE]      \* member of a TaskGroup whose done-callback has not run yet
 
-KInit(stacks, roots) ==
+\* rev: the iteration order of CancelScope._tasks / _child_scopes (Python sets: any order is a legal
+\* execution).  FALSE = tasks ascending, same-task child scope first; TRUE = the reverse.  Models that
+\* want both orders explored choose rev nondeterministically in Init (KInitR).
+KInitR(stacks, roots, rev) ==
   [ready |-> <<>>, left |-> 0, cycle |-> 0, nh |-> 0, now |-> 0, timers |-> <<>>, run |-> NONE,
    T |-> [t \in Task |-> TaskInit(stacks[t], roots[t])],
    S |-> [t \in Task |-> <<>>],
-   root |-> roots]
+   root |-> roots, rev |-> rev]
+KInit(stacks, roots) == KInitR(stacks, roots, FALSE)
 
 (***************************** small helpers ******************************)
 MinOf(S) == CHOOSE x \in S : \A y \in S : x <= y
@@ -82,6 +86,7 @@ RECURSIVE SortedSeq(_)
 SortedSeq(S) == IF S = {} THEN <<>> ELSE LET m == MinOf(S) IN <<m>> \o SortedSeq(S \ {m})
 
 Range(s) == {s[i] : i \in DOMAIN s}
+Reverse(s) == [i \in DOMAIN s |-> s[Len(s) + 1 - i]]
 
 CallSoon(q, h) == [q EXCEPT !.ready = Append(@, h)]
 
@@ -189,10 +194,11 @@ DelScopes(q, ss, origin) ==
 
 \* CancelScope._deliver_cancellation(origin) on scope s (:581-629)
 Deliver(q, s, origin) ==
-  LET r1 == DelTasks(q, SortedSeq(TasksOf(q, s)), s, origin)
+  LET ord(x) == IF q.rev THEN Reverse(x) ELSE x
+      r1 == DelTasks(q, ord(SortedSeq(TasksOf(q, s))), s, origin)
       same == IF s[2] < Depth(q, s[1]) THEN <<(<<s[1], s[2] + 1>>)>> ELSE <<>>
-      kidsAll == same \o [i \in 1..Cardinality(ChildTasksScopes(q, s)) |->
-                            <<SortedSeq(ChildTasksScopes(q, s))[i], 1>>]
+      kidsAll == ord(same \o [i \in 1..Cardinality(ChildTasksScopes(q, s)) |->
+                                <<SortedSeq(ChildTasksScopes(q, s))[i], 1>>])
       kids == SelectSeq(kidsAll, LAMBDA c : ~Sc(q, c).shield /\ ~Sc(q, c).called)
       r2 == DelScopes(r1.q, kids, origin)
       retry == r1.retry \/ r2.retry
